@@ -223,13 +223,25 @@ def r5_2(run):
     run.ob("init_all_result_tables|all-components", ok_loop,
            "init_all_result_tables calls init_results for every entry of net['component_list']", run.where(iar, iar.node))
     ire = ix.func("pandapipes.component_models.component_toolbox.init_results_element")
-    nan_frames = [c for c in calls(ire.node, "DataFrame") if c.args and U(c.args[0]) in ("np.nan", "numpy.nan")]
-    stores = [n for n in ast.walk(ire.node) if isinstance(n, ast.Assign) and isinstance(n.targets[0], ast.Subscript)
-              and U(n.targets[0].value) == "net"]
-    last_ok = all(any(nf in list(ast.walk(branch[-1])) for nf in nan_frames)
-                  for branch in _branches_of(ire.node))
-    run.ob("init_results_element|nan-filled", bool(nan_frames) and bool(stores) and last_ok,
-           "every arm of init_results_element ends by storing a DataFrame filled with np.nan", run.where(ire, ire.node))
+    # on every path the store that is in effect at the end is a DataFrame of NaN indexed like the element table
+    from ..arrnf import ANF as _ANF, key as _tkey, show as _tshow
+    pe = ire.params()
+    if len(pe) != 4:
+        raise AnalysisError("init_results_element no longer has 4 parameters")
+    re_ = _ANF(ix, ire, param_alias=dict(zip(pe, ("net", "element", "output", "all_float")))).run()
+    st_ = [e for e in re_.stores() if e.base[0] in ("n", "upd") and _tkey(_base(e.base)) == _tkey(("n", "net"))]
+    finals = _final_stores(st_)
+    def nan_frame(v):
+        if not (v[0] == "call" and v[1][0] == "x" and v[1][1].endswith("DataFrame")):
+            return False
+        kw = dict(v[3])
+        data = v[2][0] if v[2] else kw.get("data")
+        idx = kw.get("index")
+        return data == ("c", "nan") and idx is not None and idx[0] == "attr" and idx[2] == "index" and idx[1][0] == "idx" \
+            and _base(idx[1][1]) == ("n", "net") and idx[1][2] == (("n", "element"),)
+    run.ob("init_results_element|nan-filled", bool(finals) and all(nan_frame(e.value) for e in finals),
+           "on every path the result table in effect at the end of init_results_element is a DataFrame of np.nan indexed like the "
+           "element table", run.where(ire, ire.node), detail="; ".join(_tshow(e.value)[:90] for e in finals))
     run.analysed(iar)
     run.analysed(ire)
 
@@ -281,6 +293,30 @@ def r5_2(run):
                "function storing into a res_ table is reachable only via extract_all_results / init_all_result_tables",
                w)
     run.floor(10)
+
+
+def _base(t):
+    from ..arrnf import base_of
+    return base_of(t)
+
+
+def _final_stores(stores):
+    """the stores that are still in effect at the end of some path: not followed by a store to the same place whose path
+    condition is implied by theirs"""
+    from ..arrnf import key as tkey
+    out = []
+    for s_ in stores:
+        c1 = {(tkey(c), p) for c, p in s_.cond}
+        over = False
+        for s2 in stores:
+            if s2.seq > s_.seq and tkey(s2.index) == tkey(s_.index):
+                c2 = {(tkey(c), p) for c, p in s2.cond}
+                if c2 <= c1:
+                    over = True
+                    break
+        if not over:
+            out.append(s_)
+    return out
 
 
 def _branches_of(fnode):
